@@ -12,6 +12,7 @@ import (
 	"net"
 	"sort"
 	"sync"
+	"sync/atomic"
 	"time"
 
 	v1 "github.com/fatedier/frp/pkg/config/v1"
@@ -48,7 +49,7 @@ type sessRun struct {
 	sink   *trace.Sink
 	srv    *env.Server
 	scopes []string
-	nhost  int
+	nhost  int64
 	mu     sync.Mutex
 	ptr2h  map[string]string // control pointer -> host tag
 	runAl  *aliasMap
@@ -151,8 +152,7 @@ func (r *sessRun) runAliasLocked(id string) string {
 }
 
 func (r *sessRun) newHost() string {
-	r.nhost++
-	return fmt.Sprintf("h%d", r.nhost)
+	return fmt.Sprintf("h%d", atomic.AddInt64(&r.nhost, 1))
 }
 
 type loginKind struct {
@@ -412,7 +412,7 @@ func (r *sessRun) one(traceNo int, steps int) {
 		panic(err)
 	}
 	r.srv = srv
-	sched.Mapper = r.mapper
+	sched.SetMapper(r.mapper)
 	r.sink.Reset("trace", traceNo, "scopes", r.scopes)
 	kinds := []loginKind{{true, false, false}, {true, false, false}, {false, false, false}, {false, true, false}, {true, true, false},
 		{false, true, true}, {false, false, true}, {true, false, true}}
@@ -489,11 +489,11 @@ func (r *sessRun) nameRace(rounds int) {
 		panic(err)
 	}
 	r.srv = srv
-	sched.Mapper = r.mapper
+	sched.SetMapper(r.mapper)
 	keep := map[string]bool{"svc.login.verify": true, "ctl.new": true, "cm.add": true, "svc.login.beforestart": true, "ctl.start": true,
 		"pm.add": true, "pm.del": true, "pm.exist": true, "ctl.newproxy.begin": true, "ctl.newproxy.end": true, "ctl.closeproxy.begin": true, "ctl.closeproxy.end": true}
-	prevFilter := sched.Filter
-	sched.Filter = func(p string) bool { return keep[p] && (prevFilter == nil || prevFilter(p)) }
+	prevFilter := sched.GetFilter()
+	sched.SetFilter(func(p string) bool { return keep[p] && (prevFilter == nil || prevFilter(p)) })
 	r.sink.Reset("trace", -2, "scopes", []string{}, "scenario", "namerace")
 	const K = 8
 	var ps []*sessPeer
@@ -532,7 +532,7 @@ func (r *sessRun) nameRace(rounds int) {
 		p.Close()
 	}
 	time.Sleep(50 * time.Millisecond)
-	sched.Filter = prevFilter
+	sched.SetFilter(prevFilter)
 	srv.Stop()
 }
 
